@@ -657,6 +657,21 @@ func c10Case(w *core.W, j int) {
 	}
 	mods("rrsig.Signature-truncated", func(s *dns.RRSIG) { s.Signature = base64.StdEncoding.EncodeToString(rawSig[:len(rawSig)-1]) })
 	mods("rrsig.Signature-empty", func(s *dns.RRSIG) { s.Signature = "" })
+	// alterations that change the length: octets behind a valid signature, in front of it, and - for the
+	// two-integer ECDSA form - a zero octet in front of each half (the same integers, not the RFC 6605 encoding)
+	b64 := func(b []byte) string { return base64.StdEncoding.EncodeToString(b) }
+	for _, n := range []int{1, 2, len(rawSig) / 2, len(rawSig)} {
+		n := n
+		mods("rrsig.Signature-octets-appended", func(s *dns.RRSIG) { s.Signature = b64(append(append([]byte(nil), rawSig...), make([]byte, n)...)) })
+		mods("rrsig.Signature-octets-prepended", func(s *dns.RRSIG) { s.Signature = b64(append(make([]byte, n), rawSig...)) })
+	}
+	mods("rrsig.Signature-appended-copy", func(s *dns.RRSIG) { s.Signature = b64(append(append([]byte(nil), rawSig...), rawSig...)) })
+	if len(rawSig)%2 == 0 {
+		h := len(rawSig) / 2
+		mods("rrsig.Signature-halves-zero-padded", func(s *dns.RRSIG) {
+			s.Signature = b64(append(append(append([]byte{0}, rawSig[:h]...), 0), rawSig[h:]...))
+		})
+	}
 	modk := func(name string, f func(kk *dns.DNSKEY)) {
 		kk := dns.Copy(k.Key).(*dns.DNSKEY)
 		f(kk)
